@@ -55,6 +55,9 @@ pub fn gen(seed: u64, tier: Tier) -> ScenarioSpec {
         spec.sink.enospc_after = Some(if rng.chance(3, 4) { (len as u64).saturating_sub(3000 + 1).saturating_add(rng.below(3000)) } else { rng.below(len as u64) });
     }
     spec.compression = *rng.pick(&[Compression::None, Compression::Lz4, Compression::Zstd]);
+    // the tree does not depend on how the file is read
+    spec.opts.compute_hash = rng.chance(1, 3);
+    spec.opts.skip_frames = spec.recorder.end != EndKind::None && rng.chance(1, 4);
     spec.knobs.insert("prelude".into(), gen_prelude(&mut rng, &[1, 2, 3, 5], 5));
     spec
 }
@@ -98,6 +101,8 @@ pub fn run(spec: &ScenarioSpec, ctx: &mut Ctx) -> Result<(), Violation> {
     ctx.shape("mdepth", md.min(8) as u64);
     ctx.shape("mflags", long as u64 | (mb as u64) << 1 | (neg as u64) << 2);
     ctx.shape("comp", spec.compression as u64);
+    ctx.shape("opts", spec.opts.skip_frames as u64 | (spec.opts.compute_hash as u64) << 1);
+    ctx.probe_if(spec.opts.skip_frames, "metadata read with skip_frames");
     ctx.probe_if(md >= 32, "metadata nested 32+ levels");
     ctx.probe_if(count_maps(m.metadata.as_deref().unwrap_or(&[])) > 128, "more than 128 maps in one metadata tree");
     ctx.probe_if(long, "metadata string of 200+ bytes");
@@ -120,7 +125,7 @@ pub fn run(spec: &ScenarioSpec, ctx: &mut Ctx) -> Result<(), Violation> {
             Res::Caught(c) => return Err(caught_violation(P, "slippi::read", &c)),
         }
     } else {
-        let Some(g) = s1_read(P, spec, &m, ctx, false)? else { return Ok(()) };
+        let Some(g) = s1_read(P, spec, &m, ctx, spec.opts != OptsSpec::default())? else { return Ok(()) };
         g
     };
     // 1. parsed tree == model tree, order included
